@@ -20,13 +20,12 @@
 //! failure.
 use std::cell::{Cell, RefCell};
 use std::collections::{BTreeMap, BTreeSet, VecDeque};
-use std::convert::Infallible;
 use std::pin::Pin;
 use std::rc::Rc;
 use std::time::Duration;
 
 use futures_util::{Stream, StreamExt};
-use p2panda_stream::{PipelineBuilder, Processor, ProcessorExt, StreamLayerExt};
+use p2panda_stream::{ComposedError, PipelineBuilder, Processor, ProcessorExt, StreamLayerExt};
 use tokio::sync::Notify;
 use tokio::time::Instant;
 use vh_common::{Args, Outcome, Rng, TraceWriter, Value, json, read_ndjson, unknown};
@@ -48,9 +47,13 @@ enum Raw {
     ProcStart(usize, Item),
     ProcDone(usize, Item),
     ProcAbort(usize, Item),
+    /// `process` of leaf l returned Err for the item
+    ProcFail(usize, Item),
     Pop(usize, Item),
     /// an output of group g-1 is handed to stream g
     Xfer(usize, Item),
+    /// the stream of group g yielded the item as an Err (its final output)
+    ErrOut(usize, Item),
     #[allow(dead_code)]
     Yield(Item),
 }
@@ -66,6 +69,8 @@ const QUIET_MS: u64 = 10_000_000_000; // nothing happened for this long (paused 
 struct Plan {
     arrivals: Vec<u64>,
     deadlines: Vec<Vec<u64>>,
+    /// per item: the leaf whose `process` fails for it (0 = none)
+    fail: Vec<usize>,
     /// per leaf: delay of its n-th `process` call (used where no absolute instant is planned)
     delays: Vec<Vec<u64>>,
     /// delay used when a leaf is called more often than planned (the run left the schedule)
@@ -98,9 +103,10 @@ impl Drop for AbortGuard<'_> {
 
 impl Processor<Item> for Leaf {
     type Output = Item;
-    type Error = Infallible;
+    /// the rejected item (the error is that item's output)
+    type Error = Item;
 
-    async fn process(&self, input: Item) -> Result<(), Infallible> {
+    async fn process(&self, input: Item) -> Result<(), Item> {
         let n = self.calls.get();
         self.calls.set(n + 1);
         self.log.borrow_mut().push(Raw::ProcStart(self.idx, input));
@@ -120,19 +126,41 @@ impl Processor<Item> for Leaf {
         // an await that really suspends (like Ingest's database call)
         tokio::time::sleep_until(deadline).await;
         guard.armed = false;
+        if self.plan.fail.get(input as usize - 1).copied().unwrap_or(0) == self.idx {
+            self.log.borrow_mut().push(Raw::ProcFail(self.idx, input));
+            return Err(input);
+        }
         self.queue.borrow_mut().push_back(input);
         self.log.borrow_mut().push(Raw::ProcDone(self.idx, input));
         self.notify.notify_one();
         Ok(())
     }
 
-    async fn next(&self) -> Result<Item, Infallible> {
+    async fn next(&self) -> Result<Item, Item> {
         loop {
             if let Some(item) = self.queue.borrow_mut().pop_front() {
                 self.log.borrow_mut().push(Raw::Pop(self.idx, item));
                 return Ok(item);
             }
             self.notify.notified().await;
+        }
+    }
+}
+
+/// The item an error of a (composed) processor belongs to.
+trait ErrId {
+    fn err_id(&self) -> Item;
+}
+impl ErrId for Item {
+    fn err_id(&self) -> Item {
+        *self
+    }
+}
+impl<A: ErrId, B: ErrId> ErrId for ComposedError<A, B> {
+    fn err_id(&self) -> Item {
+        match self {
+            ComposedError::First(e) => e.err_id(),
+            ComposedError::Second(e) => e.err_id(),
         }
     }
 }
@@ -154,7 +182,11 @@ fn add_group(input: BoxStream, mut leaves: Vec<Leaf>, g: usize, log: Log, via_ex
                             log.borrow_mut().push(Raw::Xfer(g + 1, item));
                             Some(item)
                         }
-                        Err(_) => None,
+                        Err(e) => {
+                            // an Err item is the final output of that input: delivered here
+                            log.borrow_mut().push(Raw::ErrOut(g, e.err_id()));
+                            None
+                        }
                     }
                 }
             })) as BoxStream
@@ -193,7 +225,10 @@ fn add_group(input: BoxStream, mut leaves: Vec<Leaf>, g: usize, log: Log, via_ex
 
 struct RunOut {
     raw: Vec<Raw>,
-    yielded: Vec<Item>,
+    /// outputs in delivery order: x = Ok(x) from the last stream, -x = Err for item x from any stream
+    yielded: Vec<i64>,
+    /// the last stream returned `None` (processor streams never terminate)
+    terminated: bool,
 }
 
 /// Runs the real pipeline under a paused clock until nothing can happen any more.
@@ -245,15 +280,30 @@ fn run_pipeline(groups: &[usize], n: usize, plan: Plan, via_ext: bool) -> Result
                     .collect();
                 stream = add_group(stream, leaves, g0 + 1, log.clone(), via_ext);
             }
-            let mut yielded = Vec::new();
+            let mut terminated = false;
             // quiescence on a paused clock: the only timer left is this timeout
-            while let Ok(Some(item)) = tokio::time::timeout(Duration::from_millis(QUIET_MS), stream.next()).await {
-                // the last glue logged Xfer(NG + 1, item): that is the consumer's Yield
-                yielded.push(item);
+            loop {
+                match tokio::time::timeout(Duration::from_millis(QUIET_MS), stream.next()).await {
+                    Ok(Some(_)) => {} // the last glue logged Xfer(NG + 1, item): the consumer's Yield
+                    Ok(None) => {
+                        terminated = true;
+                        break;
+                    }
+                    Err(_) => break,
+                }
             }
             drop(stream);
             let raw = log.borrow().clone();
-            RunOut { raw, yielded }
+            let ng = groups.len();
+            let yielded = raw
+                .iter()
+                .filter_map(|r| match r {
+                    Raw::Xfer(g, x) if *g == ng + 1 => Some(*x as i64),
+                    Raw::ErrOut(_, x) => Some(-(*x as i64)),
+                    _ => None,
+                })
+                .collect();
+            RunOut { raw, yielded, terminated }
         }))
     })
 }
@@ -303,6 +353,21 @@ fn coalesce(raw: &[Raw], groups: &[usize]) -> Result<Vec<Value>, String> {
                 }
             }
             Raw::Yield(x) => out.push(json!({"ev": "Yield", "x": x})),
+            Raw::ErrOut(g, x) => {
+                if *g == ng {
+                    out.push(json!({"ev": "Yield", "x": -(*x as i64)}));
+                } else {
+                    out.push(json!({"ev": "Xfer", "g": g + 1, "x": -(*x as i64)}));
+                }
+            }
+            Raw::ProcFail(l, x) => {
+                let g = t.group_of[*l - 1];
+                if *l == t.first[g - 1] {
+                    out.push(json!({"ev": "BufFail", "g": g, "x": x}));
+                } else {
+                    out.push(json!({"ev": "HandFail", "g": g, "l": l, "x": x}));
+                }
+            }
             Raw::ProcAbort(l, x) => {
                 if pending_abort.is_some() {
                     return Err(format!("two dropped `process` futures in a row at raw event {i}"));
@@ -377,25 +442,44 @@ struct Verdict {
     lost: BTreeSet<Item>,
 }
 
-fn judge(raw: &[Raw], yielded: &[Item], groups: &[usize], n: usize) -> Verdict {
+fn judge(r: &RunOut, groups: &[usize], n: usize, fail: &[usize]) -> Verdict {
+    let raw = &r.raw[..];
+    let yielded = &r.yielded[..];
     let t = topo(groups);
     let mut findings = Vec::new();
     let arrived: BTreeSet<Item> = raw.iter().filter_map(|r| if let Raw::Arrive(x) = r { Some(*x) } else { None }).collect();
     if arrived.len() != n {
         findings.push(("input-not-consumed".to_string(), format!("only {arrived:?} of {n} inputs were taken from the input stream")));
     }
-    // exactly once
+    // processor streams never terminate
+    if r.terminated {
+        findings.push((
+            "stream-terminated".to_string(),
+            format!("the stream returned None after the outputs {yielded:?} (x = Ok(x), -x = Err for item x)"),
+        ));
+    }
+    // exactly once: one output per input, Ok or Err
     let mut seen = BTreeSet::new();
-    for x in yielded {
-        if !seen.insert(*x) {
-            findings.push(("output-yielded-twice".into(), format!("item {x} yielded more than once: {yielded:?}")));
+    for y in yielded {
+        let x = y.unsigned_abs() as Item;
+        if !seen.insert(x) {
+            findings.push(("output-yielded-twice".into(), format!("item {x} came out more than once: {yielded:?}")));
         }
-        if !arrived.contains(x) {
+        if !arrived.contains(&x) {
             findings.push(("output-never-input".into(), format!("item {x} was yielded but never arrived")));
         }
+        // an item comes out as Err exactly if one of its `process` calls was made to fail
+        let marked = fail.get(x as usize - 1).copied().unwrap_or(0) != 0;
+        if marked != (*y < 0) {
+            findings.push((
+                "ok-err-mismatch".into(),
+                format!("item {x}: process fails = {marked}, but it came out as {}", if *y < 0 { "Err" } else { "Ok" }),
+            ));
+        }
     }
-    // order
-    if yielded.windows(2).any(|w| w[0] >= w[1]) {
+    // order of the Ok outputs (an Err is sent past the processor's queues and may overtake)
+    let oks: Vec<i64> = yielded.iter().filter(|y| **y > 0).cloned().collect();
+    if oks.windows(2).any(|w| w[0] >= w[1]) {
         findings.push(("outputs-out-of-order".into(), format!("FIFO leaves, outputs {yielded:?}")));
     }
     // losses, classified by the last thing the leaves saw of the item
@@ -403,7 +487,13 @@ fn judge(raw: &[Raw], yielded: &[Item], groups: &[usize], n: usize) -> Verdict {
     for x in &lost {
         let last = raw.iter().rev().find(|r| match r {
             Raw::Arrive(y) | Raw::Yield(y) => y == x,
-            Raw::ProcStart(_, y) | Raw::ProcDone(_, y) | Raw::ProcAbort(_, y) | Raw::Pop(_, y) | Raw::Xfer(_, y) => y == x,
+            Raw::ProcStart(_, y)
+            | Raw::ProcDone(_, y)
+            | Raw::ProcAbort(_, y)
+            | Raw::ProcFail(_, y)
+            | Raw::Pop(_, y)
+            | Raw::Xfer(_, y)
+            | Raw::ErrOut(_, y) => y == x,
         });
         match last {
             Some(Raw::ProcAbort(l, _)) if *l != t.first[t.group_of[*l - 1] - 1] => {
@@ -435,9 +525,9 @@ fn report_once(out: &mut Outcome, reported: &mut BTreeSet<String>, sig: &str, de
     }
 }
 
-fn emit_run(tw: &mut TraceWriter, groups: &[usize], n: usize, events: Vec<Value>) {
+fn emit_run(tw: &mut TraceWriter, groups: &[usize], n: usize, fail: &[usize], events: Vec<Value>) {
     let leaves: usize = groups.iter().sum();
-    tw.event(json!({"ev": "Reset", "groups": groups, "n": n, "leaves": leaves}));
+    tw.event(json!({"ev": "Reset", "groups": groups, "n": n, "leaves": leaves, "fail": fail}));
     for e in events {
         tw.event(e);
     }
@@ -452,6 +542,7 @@ fn plan_from_behaviour(b: &Value, groups: &[usize], n: usize) -> Plan {
     let mut plan = Plan {
         arrivals: vec![0; n],
         deadlines: vec![Vec::new(); leaves],
+        fail: b["fail"].as_array().map(|a| a.iter().map(|v| v.as_u64().unwrap() as usize).collect()).unwrap_or_else(|| vec![0; n]),
         delays: Vec::new(),
         fallback_ms: 7,
     };
@@ -460,7 +551,7 @@ fn plan_from_behaviour(b: &Value, groups: &[usize], n: usize) -> Plan {
     let mut open: BTreeMap<usize, usize> = BTreeMap::new();
     for s in b["steps"].as_array().expect("steps") {
         let a = s["a"].as_str().unwrap();
-        let timer = matches!(a, "Arrive" | "BufDone" | "HandDone");
+        let timer = matches!(a, "Arrive" | "BufDone" | "HandDone" | "BufFail" | "HandFail");
         if timer {
             clock += 10;
         }
@@ -477,14 +568,14 @@ fn plan_from_behaviour(b: &Value, groups: &[usize], n: usize) -> Plan {
                 plan.deadlines[l - 1].push(NEVER_MS);
                 open.insert(l, plan.deadlines[l - 1].len() - 1);
             }
-            "BufDone" => {
+            "BufDone" | "BufFail" => {
                 let g = s["g"].as_u64().unwrap() as usize;
                 let l = t.first[g - 1];
                 if let Some(k) = open.remove(&l) {
                     plan.deadlines[l - 1][k] = clock;
                 }
             }
-            "HandDone" => {
+            "HandDone" | "HandFail" => {
                 let l = s["l"].as_u64().unwrap() as usize;
                 if let Some(k) = open.remove(&l) {
                     plan.deadlines[l - 1][k] = clock;
@@ -527,8 +618,12 @@ fn replay(args: &Args) {
         let groups: Vec<usize> = b["groups"].as_array().unwrap().iter().map(|g| g.as_u64().unwrap() as usize).collect();
         let n = b["n"].as_u64().unwrap() as usize;
         let plan = plan_from_behaviour(b, &groups, n);
+        let fail = plan.fail.clone();
         if n >= 2 {
-            out.mark_distinct(format!("{groups:?}|{:?}|{:?}", plan.arrivals, plan.deadlines));
+            out.mark_distinct(format!("{groups:?}|{:?}|{:?}|{fail:?}", plan.arrivals, plan.deadlines));
+        }
+        if fail.iter().any(|l| *l != 0) {
+            out.count("runs-with-a-failing-process");
         }
         let r = match run_pipeline(&groups, n, plan, false) {
             Ok(r) => r,
@@ -537,7 +632,7 @@ fn replay(args: &Args) {
                 continue;
             }
         };
-        let v = judge(&r.raw, &r.yielded, &groups, n);
+        let v = judge(&r, &groups, n, &fail);
         for (sig, detail) in &v.findings {
             report_once(&mut out, &mut reported, sig, detail, b);
         }
@@ -563,7 +658,7 @@ fn replay(args: &Args) {
                     out.count("runs-with-loss");
                 }
                 if let Some(tw) = tw.as_mut() {
-                    emit_run(tw, &groups, n, events);
+                    emit_run(tw, &groups, n, &fail, events);
                 }
                 if v.findings.is_empty() {
                     out.sample(b.clone());
@@ -639,9 +734,15 @@ fn record(args: &Args) {
             };
             delays.push((0..(n + 2)).map(|_| 2 * (base + rng.below(base.min(6) + 1)) + 1).collect::<Vec<u64>>());
         }
+        // some inputs are rejected by one of the leaves (the error is that input's output)
+        let fail: Vec<usize> = (0..n).map(|_| if rng.chance(1, 5) { rng.range(1, leaves as u64) as usize } else { 0 }).collect();
+        if fail.iter().any(|l| *l != 0) {
+            out.count("runs-with-a-failing-process");
+        }
         let plan = Plan {
             arrivals,
             deadlines: vec![Vec::new(); leaves],
+            fail: fail.clone(),
             delays,
             fallback_ms: 5,
         };
@@ -652,8 +753,8 @@ fn record(args: &Args) {
                 continue;
             }
         };
-        let case = json!({"groups": groups, "n": n, "arrivals": plan.arrivals, "delays": plan.delays, "yielded": r.yielded});
-        let v = judge(&r.raw, &r.yielded, &groups, n);
+        let case = json!({"groups": groups, "n": n, "arrivals": plan.arrivals, "delays": plan.delays, "fail": fail, "yielded": r.yielded});
+        let v = judge(&r, &groups, n, &fail);
         for (sig, detail) in &v.findings {
             report_once(&mut out, &mut reported, sig, detail, &case);
         }
@@ -672,6 +773,7 @@ fn record(args: &Args) {
                     inside += 1;
                 }
                 Raw::Xfer(g, _) if *g == groups.len() + 1 => inside -= 1,
+                Raw::ErrOut(..) => inside -= 1,
                 _ => {}
             }
         }
@@ -680,7 +782,7 @@ fn record(args: &Args) {
         }
         match coalesce(&r.raw, &groups) {
             Ok(events) => {
-                emit_run(&mut tw, &groups, n, events);
+                emit_run(&mut tw, &groups, n, &fail, events);
                 if v.findings.is_empty() {
                     out.sample(case);
                 }
